@@ -29,21 +29,40 @@
 (* AllowBlock = TRUE (only to compute which call sequences can hang under some            *)
 (* interleaving): a blocking next_result may also be issued when nothing will ever come;    *)
 (* the history then ends with the outcome "hang".                                           *)
+(* Timed restarts.  Time is counted in ticks (one tick = the timeout the caller passes to  *)
+(* restart(timeout=t)); a tick passes only when nothing instantaneous is pending.           *)
+(*   "@busy" item : the target sits in a blocking step for BusyTicks; an asynchronous       *)
+(*                  WorkerTerminatedError surfaces when the step ends                       *)
+(*   "@slowres"   : (remote) the frontend thread of the parent needs SlowTicks to rebuild   *)
+(*                  the result; the remote child may be long dead meanwhile.  The frontend  *)
+(*                  is a party of its own: `front`, with the message it holds (`fmsg`) and  *)
+(*                  what arrived behind it (`sockQ`); is_alive() is true while it runs      *)
+(*   restart(timeout=t) = wait(t) [close; join child; join frontend], and if that fails     *)
+(*                  terminate() with ITS OWN default grace TermT, raise only if still alive *)
+(*   WaitTruthful FALSE: wait() of a remote worker returns True once the remote side is     *)
+(*                  dead although the frontend is still draining: restart re-initialises    *)
+(*                  the object under the old frontend (`oldfront`), which then delivers a   *)
+(*                  result of the old incarnation into the NEW results pipe                 *)
+(*   TermOwnTimeout FALSE: terminate() gets restart's (short) timeout instead of its own    *)
+(*                  grace: a child that would stop in time is declared unstoppable          *)
 (* Settle = TRUE: a new call is issued only when the child is quiescent (what the replay    *)
 (* driver enforces with hang-bounded waits on OS-visible facts); FALSE: every interleaving. *)
 EXTENDS Naturals, Sequences, FiniteSets, TLC, PersistentProps
 
 CONSTANTS Kinds, DTypes, DArgsSet, DKwSet, Shapes, Ops, MaxSteps, MaxEnq, MaxRestarts,
-          Settle, Hist, AllowBlock, TupleFix, CounterFirst, FreshPipe, ResetClosed, BlockAfterClose
+          Settle, Hist, AllowBlock, TupleFix, CounterFirst, FreshPipe, ResetClosed, BlockAfterClose,
+          BusyTicks, SlowTicks, WaitT, TermT, WaitTruthful, TermOwnTimeout
 
 VARIABLES kind, dtype, dargs, dkw,               \* scenario
           ppc, pend, closed, pdead, late,        \* parent: pc, call in progress, _closed, _dead, "after close/death"
           cpc, cur, val, counter, cres, apend,   \* child: pc, item, value, _counter, outcome, async exception pending
           argsQ, resQ,                           \* channels
           I, done,                               \* observation record of the current / finished incarnations
-          steps, nenq, nrst, h
+          steps, nenq, nrst, h,
+          busyleft, front, fmsg, sockQ, frontleft, tleft, oldfront   \* timed parties (see above)
+timev == <<busyleft, front, fmsg, sockQ, frontleft, tleft, oldfront>>
 vars == <<kind, dtype, dargs, dkw, ppc, pend, closed, pdead, late, cpc, cur, val, counter, cres, apend,
-          argsQ, resQ, I, done, steps, nenq, nrst, h>>
+          argsQ, resQ, I, done, steps, nenq, nrst, h, timev>>
 scnv == <<kind, dtype, dargs, dkw>>
 childv == <<cpc, cur, val, counter, cres, apend>>
 
@@ -57,7 +76,10 @@ MkItem(s, ord) == [a |-> IF s.n = 0 THEN <<>>
                    kw |-> s.kw]
 IsStuck(it) == Len(it.a) > 0 /\ it.a[1] = "@stuck"
 IsRaise(it) == Len(it.a) > 0 /\ it.a[1] = "@raise"
-FaultOf(it) == IF IsStuck(it) THEN "stuck" ELSE IF IsRaise(it) THEN "poison" ELSE "none"
+IsBusy(it) == Len(it.a) > 0 /\ it.a[1] = "@busy"
+IsSlowRes(it) == Len(it.a) > 0 /\ it.a[1] = "@slowres"
+FaultOf(it) == IF IsStuck(it) THEN "stuck" ELSE IF IsRaise(it) THEN "poison" ELSE IF IsBusy(it) THEN "busy"
+               ELSE IF IsSlowRes(it) THEN "slowres" ELSE "none"
 
 \* what the target returns
 Target(a, kw) == IF IsSpecial(a) THEN [t |-> SpecTag(a[1]), a |-> <<>>, kw |-> <<>>]
@@ -76,18 +98,31 @@ Init == /\ kind \in Kinds /\ dtype \in DTypes /\ dargs \in DArgsSet /\ dkw \in D
         /\ argsQ = <<>> /\ resQ = <<>>
         /\ I = FreshInc(1) /\ done = <<>>
         /\ steps = 0 /\ nenq = 0 /\ nrst = 0 /\ h = <<>>
+        /\ busyleft = 0 /\ front = "idle" /\ fmsg = [c |-> 0, f |-> "F", v |-> Nil] /\ sockQ = <<>> /\ frontleft = 0
+        /\ tleft = 0 /\ oldfront = [st |-> "none", msg |-> [c |-> 0, f |-> "F", v |-> Nil]]
 
 \* ------------------------------------------------------------------ helpers ----
-Alive == ~pdead /\ cpc # "dead"                    \* what is_alive() returns now
+Alive == ~pdead /\ (cpc # "dead" \/ front = "slow")   \* what is_alive() returns now (remote: the frontend counts)
+FullDead == cpc = "dead" /\ front # "slow"
+\* a busy target / a slow frontend is around (or queued): the ordinary calls are not issued meanwhile
+Timed == \/ cpc = "busy" \/ front = "slow" \/ oldfront.st = "slow"
+         \/ (cpc \in {"run", "send"} /\ (IsBusy(cur) \/ IsSlowRes(cur)))
+         \/ \E k \in 1..Len(argsQ) : IsBusy(argsQ[k]) \/ IsSlowRes(argsQ[k])
+\* steps that take no time are pending: no tick, no timeout before they are done
+InstantPending == \/ cpc \in {"run", "send", "cleanup", "exiting"} \/ (cpc = "recv" /\ argsQ # <<>>)
+                  \/ (cpc = "busy" /\ busyleft = 0) \/ (front = "slow" /\ frontleft = 0)
+                  \/ (oldfront.st = "slow" /\ frontleft = 0)
 SeeDeath == pdead' = (pdead \/ cpc = "dead")       \* is_alive() caches a death it sees
 Quiet == cpc \in {"dead", "stuck"} \/ (cpc = "recv" /\ argsQ = <<>>)
 HasStuck == \/ cpc = "stuck" \/ (cpc = "run" /\ IsStuck(cur))
             \/ \E k \in 1..Len(argsQ) : IsStuck(argsQ[k])
-CanCall == ppc = "ready" /\ steps < MaxSteps /\ (Settle => Quiet)
+CanCall == ppc = "ready" /\ steps < MaxSteps /\ (Settle => Quiet) /\ ~Timed
 BoolStr(b) == IF b THEN "T" ELSE "F"
 \* what the replay driver must establish before issuing a call (the settled state the call starts in)
 \* <<results readable?, child state, number of readable results>>
-Pre == <<BoolStr(resQ # <<>>), IF cpc = "dead" THEN "dead" ELSE IF cpc = "stuck" THEN "stuck" ELSE "idle", Len(resQ)>>
+Pre == <<BoolStr(resQ # <<>>),
+         IF front = "slow" THEN "slow" ELSE IF cpc = "dead" THEN "dead" ELSE IF cpc = "stuck" THEN "stuck"
+         ELSE IF cpc = "busy" THEN "busy" ELSE "idle", Len(resQ)>>
 LogP(op, out, pre) == /\ h' = (IF Hist THEN Append(h, <<op, out, pre[1], pre[2], pre[3]>>) ELSE h)
                       /\ steps' = steps + 1
 Log(op, out) == LogP(op, out, Pre)
@@ -99,8 +134,8 @@ CloseEff(al) == IF closed \/ (kind # "process" /\ ~al) THEN UNCHANGED <<closed, 
                      /\ argsQ' = (IF cpc = "dead" THEN argsQ ELSE Append(argsQ, NoneItem))
 
 \* ------------------------------------------------------------------ parent API ----
-DoEnq(op, it) ==
-   /\ CanCall /\ nenq < MaxEnq
+DoEnqG(op, it, guard) ==
+   /\ guard /\ nenq < MaxEnq
    /\ LET ok == Alive /\ ~closed
           out == IF ok THEN "ok" ELSE "WCE"
       IN /\ argsQ' = (IF ok THEN Append(argsQ, it) ELSE argsQ)
@@ -112,6 +147,10 @@ DoEnq(op, it) ==
    /\ SeeDeath /\ nenq' = nenq + 1
    /\ UNCHANGED <<scnv, ppc, pend, closed, late, childv, resQ, done, nrst>>
 
+DoEnq(op, it) == DoEnqG(op, it, CanCall)
+\* an input queued behind a busy target (lost when the worker is restarted)
+ApiEnqBehindBusy == /\ "enq" \in Ops /\ cpc = "busy" /\ busyleft = BusyTicks /\ oldfront.st = "none"
+                    /\ \E s \in Shapes : DoEnqG("enq", MkItem(s, nenq + 1), ppc = "ready" /\ steps < MaxSteps)
 ApiEnq == "enq" \in Ops /\ \E s \in Shapes : DoEnq("enq", MkItem(s, nenq + 1))
 ApiEnqRaise == "enq@raise" \in Ops /\ I.fault = "none" /\ DoEnq("enq@raise", [a |-> <<"@raise">>, kw |-> <<>>])
 ApiEnqStuck == "enq@stuck" \in Ops /\ I.fault = "none" /\ DoEnq("enq@stuck", [a |-> <<"@stuck">>, kw |-> <<>>])
@@ -241,8 +280,8 @@ ApiRelease == /\ CanCall /\ cpc = "stuck"
               /\ UNCHANGED <<scnv, ppc, pend, closed, pdead, late, cur, counter, cres, apend, argsQ, resQ, I, done, nenq, nrst>>
 
 \* __dict__.clear(); __init__(..., results_pipe=..., _is_restart=True)
-Reinit(op, pre) ==
-   /\ done' = Append(done, [I EXCEPT !.endk = "restarted", !.oldos = "dead"])
+ReinitO(op, pre, os) ==
+   /\ done' = Append(done, [I EXCEPT !.endk = "restarted", !.oldos = os])
    /\ I' = FreshInc(I.id + 1)
    /\ closed' = (IF ResetClosed THEN FALSE ELSE closed)
    /\ pdead' = FALSE /\ late' = FALSE
@@ -253,6 +292,7 @@ Reinit(op, pre) ==
    /\ LogP(op, "ok", pre)
    /\ pend' = NoPend
    /\ UNCHANGED <<scnv, nenq>>
+Reinit(op, pre) == ReinitO(op, pre, "dead")
 
 \* restart() / restart(results_pipe=Pipe()) with timeout=None
 ApiRestart(op) ==
@@ -277,7 +317,7 @@ ApiRestartT(op) ==
       ELSE Reinit(op, Pre)
 
 \* end of the history: wait(), read worker.result, drain the results endpoint
-Finish == /\ ppc = "ready" /\ (Settle => Quiet) /\ ~HasStuck
+Finish == /\ ppc = "ready" /\ (Settle => Quiet) /\ ~HasStuck /\ ~Timed
           /\ CloseEff(Alive) /\ ppc' = "fin"
           /\ UNCHANGED <<scnv, pend, pdead, late, childv, resQ, I, done, steps, nenq, nrst, h>>
 FinEnd == /\ ppc = "fin" /\ cpc = "dead"
@@ -303,36 +343,100 @@ CRun == /\ cpc = "run"
         /\ IF apend THEN cpc' = "cleanup" /\ cres' = "err" /\ apend' = FALSE /\ UNCHANGED val
            ELSE IF IsRaise(cur) THEN cpc' = "cleanup" /\ cres' = "err" /\ UNCHANGED <<val, apend>>
            ELSE IF IsStuck(cur) THEN cpc' = "stuck" /\ UNCHANGED <<val, cres, apend>>
+           ELSE IF IsBusy(cur) THEN cpc' = "busy" /\ UNCHANGED <<val, cres, apend>>
            ELSE /\ cpc' = "send" /\ val' = Target(Merge(dargs, cur.a), KwSeq(dkw, cur.kw))
                 /\ UNCHANGED <<cres, apend>>
-        /\ UNCHANGED <<scnv, parentv, cur, counter, argsQ, resQ>>
-CSend == /\ cpc = "send"
+        /\ busyleft' = (IF ~apend /\ IsBusy(cur) THEN BusyTicks ELSE busyleft)
+        /\ UNCHANGED <<scnv, parentv, cur, counter, argsQ, resQ, front, fmsg, sockQ, frontleft, tleft, oldfront>>
+\* the blocking step of a busy target ends: a pending asynchronous exception surfaces now
+BusyEnd == /\ cpc = "busy" /\ busyleft = 0
+           /\ IF apend THEN cpc' = "cleanup" /\ cres' = "err" /\ apend' = FALSE /\ UNCHANGED val
+              ELSE cpc' = "send" /\ val' = Target(cur.a, <<>>) /\ UNCHANGED <<cres, apend>>
+           /\ UNCHANGED <<scnv, parentv, cur, counter, argsQ, resQ, timev>>
+CSend == /\ cpc = "send" /\ front # "slow"
          /\ counter' = counter + 1
-         /\ resQ' = Append(resQ, [c |-> (IF CounterFirst THEN counter + 1 ELSE counter), f |-> "T", v |-> val])
+         /\ LET m == [c |-> (IF CounterFirst THEN counter + 1 ELSE counter), f |-> "T", v |-> val] IN
+            IF kind = "remote" /\ val.t = "slow"
+            THEN /\ front' = "slow" /\ fmsg' = m /\ frontleft' = SlowTicks /\ UNCHANGED resQ   \* the frontend starts rebuilding it
+            ELSE /\ resQ' = Append(resQ, m) /\ UNCHANGED <<front, fmsg, frontleft>>
          /\ cpc' = "recv"
-         /\ UNCHANGED <<scnv, parentv, cur, val, cres, apend, argsQ>>
+         /\ UNCHANGED <<scnv, parentv, cur, val, cres, apend, argsQ, busyleft, sockQ, tleft, oldfront>>
 CCleanup == /\ cpc = "cleanup"
-            /\ resQ' = Append(resQ, EndMarker) /\ cpc' = "exiting"
-            /\ UNCHANGED <<scnv, parentv, cur, val, counter, cres, apend, argsQ>>
+            /\ IF front = "slow" THEN sockQ' = Append(sockQ, EndMarker) /\ UNCHANGED resQ      \* queues behind the slow message
+               ELSE resQ' = Append(resQ, EndMarker) /\ UNCHANGED sockQ
+            /\ cpc' = "exiting"
+            /\ UNCHANGED <<scnv, parentv, cur, val, counter, cres, apend, argsQ, busyleft, front, fmsg, frontleft, tleft, oldfront>>
+\* the frontend has rebuilt the message: it and everything that arrived behind it reach the results pipe
+FrontDeliver == /\ front = "slow" /\ frontleft = 0
+                /\ resQ' = Append(resQ, fmsg) \o sockQ /\ sockQ' = <<>> /\ front' = "idle"
+                /\ UNCHANGED <<scnv, parentv, childv, argsQ, busyleft, fmsg, frontleft, tleft, oldfront>>
+\* an abandoned frontend of the previous incarnation: it looks up the results pipe through the re-initialised
+\* object, delivers its old message there and dies (assert wid == self.id)
+OldFrontDeliver == /\ oldfront.st = "slow" /\ frontleft = 0
+                   /\ resQ' = Append(resQ, oldfront.msg) /\ oldfront' = [oldfront EXCEPT !.st = "none"]
+                   /\ UNCHANGED <<scnv, parentv, childv, argsQ, busyleft, front, fmsg, sockQ, frontleft, tleft>>
+Dec(n) == IF n > 0 THEN n - 1 ELSE 0
+Tick == /\ ~InstantPending
+        /\ \/ (ppc \in {"k_wait", "k_term"} /\ tleft > 0)
+           \/ (ppc = "ready" /\ (cpc = "busy" \/ front = "slow" \/ oldfront.st = "slow"))
+        /\ tleft' = Dec(tleft) /\ busyleft' = Dec(busyleft) /\ frontleft' = Dec(frontleft)
+        /\ UNCHANGED <<scnv, parentv, childv, argsQ, resQ, front, fmsg, sockQ, oldfront>>
 CExit == /\ cpc = "exiting" /\ cpc' = "dead"
          /\ UNCHANGED <<scnv, parentv, cur, val, counter, cres, apend, argsQ, resQ>>
-Child == CRecv \/ CRun \/ CSend \/ CCleanup \/ CExit
+Child == (CRecv /\ UNCHANGED timev) \/ CRun \/ CSend \/ CCleanup \/ (CExit /\ UNCHANGED timev) \/ BusyEnd \/ FrontDeliver \/ OldFrontDeliver
+
+\* ------------------------------------------------------------------ restart(timeout=t) against time ----
+ApiEnqBusy == "enq@busy" \in Ops /\ I.fault = "none" /\ DoEnq("enq@busy", [a |-> <<"@busy">>, kw |-> <<>>])
+ApiEnqSlow == "enq@slow" \in Ops /\ kind = "remote" /\ I.fault = "none" /\ DoEnq("enq@slow", [a |-> <<"@slowres">>, kw |-> <<>>])
+FreshTimed == \/ (cpc = "busy" /\ busyleft = BusyTicks)
+              \/ (front = "slow" /\ frontleft = SlowTicks /\ cpc = "recv" /\ argsQ = <<>>)
+ResetTimed == /\ busyleft' = 0 /\ front' = "idle" /\ sockQ' = <<>> /\ tleft' = 0 /\ UNCHANGED <<fmsg, frontleft, oldfront>>
+\* restart(timeout=t) / restart(timeout=t, results_pipe=Pipe()), as Pool.restart_workers calls it
+ApiRestartK(op) ==
+   /\ op \in Ops /\ ppc = "ready" /\ steps < MaxSteps /\ nrst < MaxRestarts /\ FreshTimed /\ oldfront.st = "none"
+   /\ CloseEff(TRUE) /\ ppc' = "k_wait" /\ tleft' = WaitT /\ pend' = [pend EXCEPT !.op = op, !.pre = Pre]
+   /\ UNCHANGED <<scnv, pdead, late, childv, resQ, I, done, steps, nenq, nrst, h, busyleft, front, fmsg, sockQ, frontleft, oldfront>>
+KDone == /\ ppc \in {"k_wait", "k_term"} /\ FullDead
+         /\ Reinit(pend.op, pend.pre) /\ ResetTimed
+\* wait(t) timed out
+KWaitTimeout ==
+   /\ ppc = "k_wait" /\ tleft = 0 /\ ~InstantPending /\ ~FullDead
+   /\ IF ~WaitTruthful /\ kind = "remote" /\ cpc = "dead"
+      THEN \* wait() claims success: the object is re-initialised under the old, still draining frontend
+           /\ ReinitO(pend.op, pend.pre, "alive")
+           /\ oldfront' = [st |-> "slow", msg |-> fmsg]
+           /\ busyleft' = 0 /\ front' = "idle" /\ sockQ' = <<>> /\ tleft' = 0 /\ UNCHANGED <<fmsg, frontleft>>
+      ELSE \* terminate(): asynchronous exception for the child, then join with terminate's own grace
+           /\ apend' = (cpc # "dead") /\ ppc' = "k_term" /\ tleft' = (IF TermOwnTimeout THEN TermT ELSE WaitT)
+           /\ UNCHANGED <<scnv, pend, closed, pdead, late, cpc, cur, val, counter, cres, argsQ, resQ, I, done, steps, nenq, nrst, h,
+                           busyleft, front, fmsg, sockQ, frontleft, oldfront>>
+\* terminate() timed out as well: a thread cannot be forced - RuntimeError, nothing replaced; a process is killed
+KTermTimeout ==
+   /\ ppc = "k_term" /\ tleft = 0 /\ ~InstantPending /\ ~FullDead
+   /\ IF kind = "thread"
+      THEN /\ I' = [I EXCEPT !.rraised = Append(@, [still |-> "T"])]
+           /\ late' = TRUE /\ ppc' = "ready"
+           /\ LogP(pend.op, "raised:RuntimeError", pend.pre)
+           /\ UNCHANGED <<scnv, pend, closed, pdead, childv, argsQ, resQ, done, nenq, nrst, timev>>
+      ELSE Reinit(pend.op, pend.pre) /\ ResetTimed
+Timedv == ApiRestartK("restartK") \/ ApiRestartK("restartKP") \/ KDone \/ KWaitTimeout \/ KTermTimeout \/ Tick
 
 Parent == \/ ApiEnq \/ ApiEnqRaise \/ ApiEnqStuck \/ ApiClose \/ ApiAlive \/ ApiNextNB \/ ApiNextB \/ ApiNextBClosed \/ ApiNextBHang \/ NextEnd
           \/ ApiCall \/ CallEnd \/ ApiWait \/ WaitEnd \/ ApiWaitT \/ ApiTerm \/ TermEnd \/ ApiKill \/ ApiRelease
           \/ ApiRestart("restart") \/ ApiRestart("restartP") \/ RstEnd
           \/ ApiRestartT("restartT") \/ ApiRestartT("restartTnf")
-          \/ Finish \/ FinEnd
-Next == Parent \/ Child
-Spec == Init /\ [][Next]_vars /\ WF_vars(Child) /\ WF_vars(NextEnd \/ CallEnd \/ WaitEnd \/ TermEnd \/ RstEnd \/ FinEnd)
+          \/ Finish \/ FinEnd \/ ApiEnqBusy \/ ApiEnqSlow \/ ApiEnqBehindBusy
+Next == (Parent /\ UNCHANGED timev) \/ Child \/ Timedv
+Spec == Init /\ [][Next]_vars /\ WF_vars(Child) /\ WF_vars((NextEnd \/ CallEnd \/ WaitEnd \/ TermEnd \/ RstEnd \/ FinEnd) /\ UNCHANGED timev) /\ WF_vars(Timedv)
 
 \* ------------------------------------------------------------------ properties ----
 Terminal == ppc = "done"
 Rec == [scn |-> [kind |-> kind, dtype |-> dtype, dargs |-> dargs, dkw |-> dkw],
         obs |-> [incs |-> Append(done, I)]]
 
-TypeOK == /\ ppc \in {"hung", "ready", "next", "call", "wait", "term", "rst", "fin", "done"}
-          /\ cpc \in {"recv", "run", "send", "stuck", "cleanup", "exiting", "dead"}
+TypeOK == /\ front \in {"idle", "slow"} /\ oldfront.st \in {"none", "slow"} /\ busyleft <= BusyTicks /\ frontleft <= SlowTicks
+          /\ ppc \in {"k_wait", "k_term", "hung", "ready", "next", "call", "wait", "term", "rst", "fin", "done"}
+          /\ cpc \in {"recv", "run", "send", "stuck", "busy", "cleanup", "exiting", "dead"}
           /\ cres \in {"none", "v", "err"}
           /\ counter <= MaxEnq /\ Len(argsQ) <= MaxEnq + 1 /\ Len(resQ) <= MaxEnq + 1
 Inv_C05_Stream == C05_Stream(Rec)
@@ -358,6 +462,8 @@ W_NoLongerArgs == ~(\E k \in 1..Len(I.enq) : Len(I.enq[k].a) > Len(dargs) /\ Len
 W_NoRestartUnread == ~(Len(done) > 0 /\ Len(done[1].enq) > Len(Valid(done[1].raw)) /\ Len(Valid(I.raw)) > 0)
 W_NoRestartRaised == ~(Len(I.rraised) > 0)
 W_NoRestartKilled == ~(Len(done) > 0 /\ done[1].fault = "kill")
+W_NoTimedRestartOfBusy == ~(Len(done) > 0 /\ done[1].fault = "busy")
+W_NoTimedRestartOfSlowFrontend == ~(Len(done) > 0 /\ done[1].fault = "slowres" /\ kind = "remote")
 W_NoSecondRestart == ~(Len(done) >= 2)
 
 \* ---- path dump for replay (Hist = TRUE): every complete API history once per outcome sequence ----
